@@ -1,6 +1,7 @@
 package verify
 
 import (
+	"bytes"
 	"crypto/x509"
 	"time"
 
@@ -14,7 +15,7 @@ import (
 // signature check): at each of them any runnable thread may be resumed, and every choice is
 // explored. Each call must get the verdict it would get in isolation.
 
-func verifC09(concurrent bool) {
+func verifC09(concurrent, preconfigured bool) {
 	// a genuine endorsement (decodes, chains, verifies, provenance present) with one symbolic
 	// table row and a symbolic SVSM value; the two report measurements and the requested VMSA
 	// count are arbitrary
@@ -31,6 +32,12 @@ func verifC09(concurrent bool) {
 	e := &epb.VMLaunchEndorsement{SerializedUefiGolden: w.payload, Signature: w.signature}
 	vmsas := verifNondetU32("expected_vmsas")
 	opts := &Options{RootsOfTrust: w.roots, Now: w.now, Endorsement: e, SNP: &SNPOptions{ExpectedLaunchVMSAs: vmsas}}
+	var pre []byte
+	if preconfigured {
+		// the caller also uses this options value elsewhere and has a measurement configured in it
+		opts.SNP.Measurement = verifNondetBytes("preconfigured", 48)
+		pre = append([]byte(nil), opts.SNP.Measurement...)
+	}
 	validate := SNPValidateFunc(opts)
 	ma := verifNondetBytes("meas_a", 48)
 	mb := verifNondetBytes("meas_b", 48)
@@ -51,6 +58,9 @@ func verifC09(concurrent bool) {
 		doneB = true
 	}
 	verifAssert(doneA && doneB, "both validations completed")
+	if preconfigured {
+		verifAssert(bytes.Equal(opts.SNP.Measurement, pre), "the options value the caller configured is not changed by validations")
+	}
 	// isolated verdicts
 	wantA := verifAllowed(w.golden, vmsas, ma) && w.golden.SevSnp != nil && !verifProvenanceMissing(w)
 	wantB := verifAllowed(w.golden, vmsas, mb) && w.golden.SevSnp != nil && !verifProvenanceMissing(w)
@@ -75,5 +85,7 @@ func verifC09(concurrent bool) {
 
 func verifProvenanceMissing(w *verifWorld) bool { return false }
 
-func VerifC09Successive() { verifC09(false) }
-func VerifC09Concurrent() { verifC09(true) }
+func VerifC09Successive()    { verifC09(false, false) }
+func VerifC09Concurrent()    { verifC09(true, false) }
+func VerifC09SuccessivePre() { verifC09(false, true) }
+func VerifC09ConcurrentPre() { verifC09(true, true) }
